@@ -6,6 +6,8 @@ CLAIMED = {
  # id: (level text, level note)
  "C07": ("Deductive proof over the real code: AreDistinctHeadersContradicting's result equals the LIP-0014 contradiction relation (spec function transcribed from the LIP) for all 2^192 header field combinations and all generator-equality outcomes; symmetry and different-generator lemmas are proved over that spec, hence over the code; fork-choice predicates equal their LIP-0014 definitions. Tests sample a few dozen header pairs; the obligations quantify over all of them.",
          "Interface getters are assumed pure (deterministic in the receiver); bytes.Equal is an assumed symmetric predicate on slice identities; the 'never flagged for an honest generator / always flagged inside the window' history part is only decided per call."),
+ "C19": ("Deductive proof over the real code of the peer-selection filters and height lists: every peer kept by the maxHeightPrevoted (resp. height) filter has a value >= every offered peer, the filters never return an empty list for a non-empty input, getLastHeights/getHeightWithGap return strictly the documented descending lists and never a height below the given minimum (loop invariants, unbounded list length).",
+         "Completeness of the filters (every maximal peer is kept) and the most-frequent-block-ID filter are not decided yet (quantifier alternation / map iteration); RPC handlers and convergence are not covered; heights are assumed < 2^31 and gap/num small (stated as preconditions)."),
  "C08": ("Deductive proof over the real code of the varint layer: readUint accepts exactly the canonical (shortest, terminated, <= 10 bytes, 10th byte <= 1) LEB128 strings, returns their value, and is complete for every canonical string (10-way unrolling with a discharged unwinding assertion, so unbounded in the input); varintShortestSize equals the LIP-0027 length function; key decoding accepts exactly wire types 0/2.",
          "NFC normalisation (x/text) and utf8.Valid are assumed; generated per-type Encode/Decode functions beyond those under contract are not yet covered (listed in evidence)."),
 }
